@@ -49,13 +49,17 @@ pub fn plain_core(shutdown: Arc<std::sync::Mutex<Shutdown>>) -> Core {
 }
 
 fn make_core_with_shutdown(authn: &Authn, establish_ms: u64, shutdown: Arc<std::sync::Mutex<Shutdown>>) -> Core {
+    make_core_at(authn, establish_ms, shutdown, ([127, 0, 0, 1], 1).into(), false)
+}
+
+fn make_core_at(authn: &Authn, establish_ms: u64, shutdown: Arc<std::sync::Mutex<Shutdown>>, addr: std::net::SocketAddr, quic: bool) -> Core {
     let settings = Settings::builder()
-        .listen_address(("127.0.0.1", 1))
+        .listen_address(addr)
         .unwrap()
         .listen_protocols(ListenProtocolSettings {
             http1: Some(Http1Settings::builder().build()),
             http2: Some(Http2Settings::builder().build()),
-            quic: None,
+            quic: if quic { Some(QuicSettings::builder().build()) } else { None },
         })
         .connection_establishment_timeout(std::time::Duration::from_millis(establish_ms))
         .build()
@@ -561,5 +565,214 @@ pub fn run_establish(ctx: &mut Ctx) {
                 ctx.stat(&format!("sessions_{}", proto));
             }
         }
+    }
+}
+
+
+/// C01 / C10 over HTTP/3: the same sessions as `run`, carried by the real QUIC multiplexer and
+/// HTTP/3 codec (`Core::listen` on a loopback UDP port, wall clock, quiche client of the harness),
+/// the forwarder scripted through the door; same query format, so the same model answers.
+pub fn run_h3(ctx: &mut Ctx) {
+    use crate::c02h3::LiveEndpoint;
+    use crate::h3cli::H3Client;
+    use std::time::Duration;
+    quiet_panics();
+    let authority_pool = [
+        "_check", "_udp2", "_icmp", "_CHECK", "_check:1", "_check.", "x_check", "_udp2:443", "_icmpx", "example.org:443", "example.org",
+        "93.184.216.34:80", "[2001:db8::1]:443", "[::1]", "localhost:22", "a-b.example:65535", "h:0", "127.0.0.1:8080",
+    ];
+    let outcomes: Vec<(ConnectScript, String)> = vec![
+        (ConnectScript::Ok { download: vec![] }, "ok".into()),
+        (ConnectScript::Refused, "io".into()),
+        (ConnectScript::Unreachable, "hostUnreachable".into()),
+        (ConnectScript::TimedOut, "timeout".into()),
+        (ConnectScript::PolicyNonroutable, "dnsNonroutable".into()),
+        (ConnectScript::PolicyLoopback, "dnsLoopback".into()),
+        (ConnectScript::ResolverFailure, "io".into()),
+        (ConnectScript::Other, "other".into()),
+        (ConnectScript::AuthenticationFailure, "authentication".into()),
+    ];
+    let clients = vec![("user".to_string(), "pass".to_string()), ("u\u{e9}".to_string(), "p:w d".to_string())];
+    let valid = b64("user:pass");
+    let hdr_pool: Vec<Option<Vec<u8>>> = vec![
+        None,
+        Some(format!("Basic {}", valid).into_bytes()),
+        Some(format!("Basic {}", b64("u\u{e9}:p:w d")).into_bytes()),
+        Some(format!("Basic {}", b64("user:wrong")).into_bytes()),
+        Some(format!("Basic {}", b64("nobody:pass")).into_bytes()),
+        Some(b"Bearer abcdef".to_vec()),
+        Some(format!("basic {}", valid).into_bytes()),
+        Some(b"Basic !!!notbase64".to_vec()),
+        Some(vec![b'B', b'a', b's', b'i', b'c', b' ', 0xff, 0xfe]),
+        Some(b"Basic ".to_vec()),
+    ];
+    let authns = [Authn::None, Authn::Registry(clients.clone()), Authn::Scripted(vec![valid.clone()], vec!["snicred".into()])];
+    let mut eps = vec![];
+    for a in &authns {
+        let a2 = a.clone();
+        match LiveEndpoint::start(move |addr| make_core_at(&a2, 30_000, Shutdown::new(), addr, true)) {
+            Some(ep) => eps.push(ep),
+            None => {
+                ctx.notes.push("c10h3: the endpoint's listener did not come up on loopback; nothing was run".to_string());
+                return;
+            }
+        }
+    }
+    let n_sessions = if ctx.thorough() { 1200 } else { 150 };
+    let auth_focus = ctx.suite == "c01h3";
+    for si in 0..n_sessions {
+        let ai = match ctx.rng.below(if auth_focus { 6 } else { 4 }) {
+            0 => 0,
+            1 | 4 | 5 => 1,
+            _ => 2,
+        };
+        let authn = &authns[ai];
+        let sni_creds: Option<String> = match ctx.rng.below(6) {
+            0 => Some("snicred".into()),
+            1 => Some("intruder".into()),
+            _ => None,
+        };
+        let nreq = ctx.rng.range(1, 4) as usize;
+        let mut script = FwdScript::default();
+        script.udp_mux_fails = ctx.rng.chance(1, 8);
+        script.icmp_mux = match ctx.rng.below(6) {
+            0 => None,
+            1 => Some(false),
+            _ => Some(true),
+        };
+        script.datagram_auth_fails = ctx.rng.chance(1, 8);
+        let mut reqs: Vec<ReqSpec> = vec![];
+        let mut used: Vec<String> = vec![];
+        for _ in 0..nreq {
+            let mut authority = ctx.rng.pick(&authority_pool).to_string();
+            if used.contains(&authority) && !["_check", "_udp2", "_icmp"].contains(&authority.as_str()) {
+                authority = format!("h{}.example:{}", ctx.rng.below(10_000), 1 + ctx.rng.below(60_000));
+            }
+            used.push(authority.clone());
+            let method = if ctx.rng.chance(3, 4) { "CONNECT" } else { *ctx.rng.pick(&["GET", "POST", "OPTIONS"]) };
+            let hdr = if auth_focus || ctx.rng.chance(1, 2) { ctx.rng.pick(&hdr_pool).clone() } else { hdr_pool[1].clone() };
+            let (mut oc, mut otok) = ctx.rng.pick(&outcomes).clone();
+            if method != "CONNECT" && matches!(oc, ConnectScript::Ok { .. }) {
+                oc = ConnectScript::Refused;
+                otok = "io".into();
+            }
+            reqs.push(ReqSpec { method: method.to_string(), authority, hdr, outcome: oc, outcome_tok: otok });
+        }
+        for r in &reqs {
+            let key = match r.authority.parse::<http::uri::Authority>() {
+                Ok(a) => match a.as_str().parse::<std::net::SocketAddr>() {
+                    Ok(sa) => sa.to_string(),
+                    Err(_) => format!("{}:{}", a.host(), a.port_u16().unwrap_or(80)),
+                },
+                Err(_) => r.authority.clone(),
+            };
+            script.connect.insert(key, r.outcome.clone());
+        }
+        verif::hooks::reset();
+        verif::hooks::STATE.lock().unwrap().forwarder = Some(script.clone());
+        let sni = sni_creds.as_ref().map(|c| format!("{}.localhost", c)).unwrap_or_else(|| "localhost".to_string());
+        let mut resp_toks: Vec<String> = vec![];
+        match H3Client::connect(eps[ai].addr, Some(&sni), &[b"h3"], 1 << 20, Duration::from_secs(3)) {
+            Err(_) => {
+                // the connection was not admitted: no request was served
+                for _ in &reqs {
+                    resp_toks.push("0 - 0 0".to_string());
+                }
+                ctx.stat("h3_connections_refused");
+            }
+            Ok(mut cl) => {
+                let mut ids = vec![];
+                for r in &reqs {
+                    let mut h = vec![("user-agent".to_string(), b"verif".to_vec())];
+                    if let Some(v) = &r.hdr {
+                        h.push(("proxy-authorization".to_string(), v.clone()));
+                    }
+                    let id = if r.method == "CONNECT" {
+                        cl.request("CONNECT", None, &r.authority, None, &h, false)
+                    } else {
+                        cl.request(&r.method, Some("http"), &r.authority, Some("/p?q=1"), &h, true)
+                    };
+                    ids.push(id);
+                }
+                let want: Vec<u64> = ids.iter().flatten().cloned().collect();
+                cl.wait(Duration::from_secs(4), |c| want.iter().all(|id| {
+                    let s = c.streams.get(id);
+                    s.map(|s| s.status.is_some() || s.reset.is_some() || s.finished).unwrap_or(false)
+                }));
+                // a little longer: a second response head on a stream would be a violation
+                cl.wait(Duration::from_millis(30), |_| false);
+                for (r, id) in reqs.iter().zip(ids.iter()) {
+                    match id {
+                        None => resp_toks.push("0 - 0 0".to_string()),
+                        Some(id) => {
+                            let s = cl.stream(*id);
+                            if s.heads > 1 {
+                                ctx.oracle_failure("more_than_one_response", &format!("h3 {} {} got {} response heads", r.method, r.authority, s.heads));
+                            }
+                            let hm: HashMap<String, String> = s.headers.iter().cloned().collect();
+                            resp_toks.push(resp_tok(s.status.unwrap_or(0), &hm));
+                        }
+                    }
+                }
+                cl.close();
+                cl.wait(Duration::from_millis(20), |_| false);
+            }
+        }
+        let calls = verif::hooks::STATE.lock().unwrap().forwarder_calls.clone();
+        let mut egress: Vec<&str> = calls
+            .iter()
+            .filter_map(|c| {
+                if c.starts_with("tcp_connect ") {
+                    Some("tcp")
+                } else if c.starts_with("udp_mux") {
+                    Some("udp")
+                } else if c.starts_with("icmp_mux") {
+                    Some("icmp")
+                } else if c.starts_with("check_auth") {
+                    Some("checkauth")
+                } else {
+                    None
+                }
+            })
+            .collect();
+        egress.sort();
+        let mut q = format!(
+            "c10 session h3 {} {} 30000 {}",
+            authn_tok(authn),
+            sni_creds.as_ref().map(|s| hex(s.as_bytes())).unwrap_or_else(|| "-".into()),
+            reqs.len()
+        );
+        for r in &reqs {
+            let (lit, port) = match r.authority.parse::<http::uri::Authority>() {
+                Ok(a) => (a.as_str().parse::<std::net::SocketAddr>().is_ok(), a.port_u16()),
+                Err(_) => (false, None),
+            };
+            q.push_str(&format!(
+                " {} {} {} {} {} {} {} {} {}",
+                if r.method == "CONNECT" { "C" } else { "O" },
+                hex(r.authority.as_bytes()),
+                lit as u8,
+                port.map(|p| p.to_string()).unwrap_or_else(|| "-".into()),
+                match &r.hdr {
+                    None => "absent".to_string(),
+                    Some(h) => format!("h{}", if h.is_empty() { String::new() } else { hex(h) }),
+                },
+                r.outcome_tok,
+                script.udp_mux_fails as u8,
+                match script.icmp_mux {
+                    None => "n",
+                    Some(true) => "o",
+                    Some(false) => "e",
+                },
+                script.datagram_auth_fails as u8
+            ));
+        }
+        let ans = format!("{} | {}", resp_toks.join(";"), if egress.is_empty() { "-".to_string() } else { egress.join(",") });
+        for t in &resp_toks {
+            ctx.stat(&format!("status_{}", t.split(' ').next().unwrap()));
+        }
+        ctx.stat("sessions_h3");
+        let _ = si;
+        ctx.emit(&q, &ans);
     }
 }
